@@ -4,3 +4,11 @@
 def chunk_empty_after_crop(v):
     """D8: every row of the frame is a type >= 2 hit above MSA+buffer, the crop drops them all."""
     return v.get('clause') == 'exception on valid input' and v.get('empties_chunk') is True
+
+
+def negative_denormal_base(v):
+    """D12: a negative base so small that base/100 underflows to -0.0 is coded 000 instead of -01."""
+    if v.get('clause') not in ('base coded upward', 'code digits != floored base', 'contract:height2code'):
+        return False
+    b = v.get('base', v.get('val'))
+    return isinstance(b, float) and -1e-300 < b < 0
